@@ -34,7 +34,7 @@
     [conf_policy], [wake_policy]) so that the variants that were seeded /
     repaired can be stated next to the code.  No proofs here. *)
 From Coq Require Import List ZArith Bool.
-From AGH Require Import Model.Pipeline.
+From AGH Require Import Base.Run Base.NetAddr Model.Pipeline.
 Import ListNotations.
 Local Open Scope Z_scope.
 
@@ -133,3 +133,44 @@ Definition cfg_at (c : cfg) (s : prot) (now : Z) : cfg :=
 
 (** The state a server starts with: the configuration file's pair. *)
 Definition prot_init (flag : bool) (until : option Z) : prot := mkProt flag until false.
+
+(** * The blocking configuration at run time (dnsforward/http.go setConfig:
+    blocking_mode with blocking_ipv4 / blocking_ipv6, blocked_response_ttl;
+    filtering/filtering.go SetBlockingMode, SetBlockedResponseTTL), as the code
+    is now: a dns_config call that carries a mode always calls SetBlockingMode,
+    which stores the mode and, for custom_ip, the two addresses. *)
+Inductive bop :=
+  | BMode (m : bmode) (v4 v6 : addr)     (* dns_config with blocking_mode (validated: custom_ip comes with both addresses) *)
+  | BTTL (ttl : N).                      (* dns_config with blocked_response_ttl *)
+
+Definition with_blocking (c : cfg) (m : bmode) (v4 v6 : addr) (ttl : N) : cfg :=
+  mkCfg (c_prot_enabled c) (c_prot_deadline c)
+        (c_filtering c) (c_safebrowsing c) (c_parental c) m v4 v6 ttl
+        (c_aaaa_disabled c) (c_services c) (c_services_paused c) (c_service_table c) (c_sb_host c) (c_par_host c)
+        (c_rewrites c) (c_hosts_on c) (c_hosts_byname c) (c_hosts_byaddr c) (c_arpa c) (c_safesearch c)
+        (c_ddr c) (c_dhcp_on c) (c_local_suffix c) (c_dhcp_hosts c) (c_dhcp_addrs c) (c_dns64 c).
+
+Definition is_custom (m : bmode) : bool := match m with MCustomIP => true | _ => false end.
+Definition bmode_same (a b : bmode) : bool :=
+  match a, b with
+  | MDefault, MDefault | MNullIP, MNullIP | MCustomIP, MCustomIP | MNXDomain, MNXDomain | MRefused, MRefused => true
+  | _, _ => false
+  end.
+
+(** DNSFilter.SetBlockingMode *)
+Definition set_blocking (c : cfg) (m : bmode) (v4 v6 : addr) : cfg :=
+  if is_custom m then with_blocking c m v4 v6 (c_ttl c) else with_blocking c m (c_ip4 c) (c_ip6 c) (c_ttl c).
+
+(** Whether setConfig passes a requested mode on to the filter. *)
+Definition mode_policy := bmode -> bmode -> bool.    (* current, requested *)
+Definition mode_always : mode_policy := fun _ _ => true.
+(** the variant that was seeded (C01-P): only when the mode differs *)
+Definition mode_only_when_changed : mode_policy := fun cur req => negb (bmode_same cur req).
+
+Definition bstep (mp : mode_policy) (c : cfg) (o : bop) : cfg :=
+  match o with
+  | BMode m v4 v6 => if mp (c_mode c) m then set_blocking c m v4 v6 else c
+  | BTTL t => with_blocking c (c_mode c) (c_ip4 c) (c_ip6 c) t
+  end.
+Definition brun (mp : mode_policy) (c : cfg) (h : list bop) : cfg := fold_left (bstep mp) h c.
+Definition brun_now := brun mode_always.
